@@ -163,13 +163,17 @@ func (c *clientApp) init() (err error) {
 		return
 	}
 
+	// Sources that inherit "ignore" share one slice (possibly with spare
+	// capacity) and the store appends to its list below, so hand it a copy
+	ignore := append([]*regexp.Regexp(nil), c.conf.Ignore...)
+
 	// Configure the file store to be scanned
 	store := &store.Local{
 		Root:           filepath.Clean(c.conf.OutDir),
 		MinAge:         c.conf.MinAge,
 		IncludeHidden:  c.conf.IncludeHidden,
 		Include:        c.conf.Include,
-		Ignore:         c.conf.Ignore,
+		Ignore:         ignore,
 		FollowSymlinks: c.dirOutFollow,
 	}
 	store.AddStandardIgnore()
